@@ -86,6 +86,21 @@ fn sweeps(thorough: bool) -> Vec<Sweep> {
 		let o = opts(false, false);
 		v.push(Sweep { sw: json!(["esc_pair2", false, false, false, second]), lo: 0, hi: 0xffff, f: Box::new(move |x| Some(parse_tuple(&format!("\"\\u{}\\u{}\"", hex4(x, false), hex4(second, false)), o, false))) });
 	}
+	// every scalar in each of the four hex-digit positions of a \uXXXX escape
+	for pos in 1..=4usize {
+		v.push(Sweep {
+			sw: json!(["esc_hexchar", pos]),
+			lo: 0,
+			hi: if thorough || pos == 4 { 0x10ffff } else { 0x2fff },
+			f: Box::new(move |x| {
+				ch(x).map(|c| {
+					let mut d: Vec<char> = vec!['0', '0', '4', '1'];
+					d[pos - 1] = c;
+					parse_tuple(&format!("\"\\u{}\"", d.iter().collect::<String>()), opts(false, false), false)
+				})
+			}),
+		});
+	}
 	// all 1,048,576 surrogate pairs: the decoded scalar
 	v.push(Sweep {
 		sw: json!(["combine"]),
